@@ -60,10 +60,12 @@ func cmdArgs(p *lang.Process) (err error) {
 	var flagsT *parameters.FlagsT
 	flagsT, jObj.Additional, err = parameters.ParseFlags(params, &args)
 	if err != nil {
+		// flagsT is nil when ParseFlags returns an error
 		jObj.Error = err.Error()
 		p.ExitNum = 1
+	} else {
+		jObj.Flags = flagsT.GetMap()
 	}
-	jObj.Flags = flagsT.GetMap()
 
 	b, err = json.Marshal(jObj, false)
 	if err != nil {
